@@ -62,16 +62,17 @@ def main(ctx, replay=None):
     res = must_ok(run_tlc("ConfigSpace", "ConfigSpace.cfg", sc, workers=1, timeout=900))
     allc = [c[1] for c in printed_values(res.out, "CFG")]
     ctx.cov["configurations_enumerated"] = len(allc)
-    if len(allc) < 5000:
+    if len(allc) < 20000:
         raise MachineryError(f"ConfigSpace enumerated only {len(allc)} configurations")
-    nsample = 48 if ctx.tier == "quick" else 1500
+    nsample = 110 if ctx.tier == "quick" else 2500
     order = [allc[int(i)] for i in rng.permutation(len(allc))]
     # stratified: every interpolator and every system (and 'none') first, then random
     cfgs, have = [], set()
-    for key in ("interp", "system", "tmin"):
+    for key in (("interp", "order", "nv"), ("system",), ("tmin", "dt")):
         for c in order:
-            if (key, c[key]) not in have:
-                have.add((key, c[key]))
+            kk = (key, tuple(c[k] for k in key))
+            if kk not in have:
+                have.add(kk)
                 cfgs.append(c)
     for c in order:
         if len(cfgs) >= nsample:
@@ -89,8 +90,8 @@ def main(ctx, replay=None):
     if len(uniq) < 20:
         raise MachineryError("too few configurations from the specification")
     exports = fillspec.cached_exports(ctx)
-    ctx.cov["rule"] = ("valid configurations enumerated by TLC from ConfigSpace.tla (10 560); a stratified random sample of them (48 quick / "
-                       "1500 thorough; every interpolator, system and T_MIN class present) is concretised into synthetic data sets and run; "
+    ctx.cov["rule"] = ("valid configurations enumerated by TLC from ConfigSpace.tla (about 48 000); a stratified random sample of them (110 quick / "
+                       "2500 thorough; every (interpolator, order, nv) triple, system and (T_MIN, DT) class present) is concretised into synthetic data sets and run; "
                        "distinct by configuration; all non-trivial")
     ctx.assumptions += ["finiteness is a floating-point fact observed on the results; the specification enumerates where to look",
                         "positive definiteness by numpy eigvalsh"]
@@ -99,10 +100,10 @@ def main(ctx, replay=None):
         for n, c in enumerate(uniq):
             tmin, dt = float(c["tmin"]), float(c["dt"])
             settings = {"T_MIN": tmin, "DT": dt, "NT": 6, "NTV": 9}
-            kw = dict(nv=7, lattice=bool(c["lattice"]), interpolator=c["interp"], order=int(c["order"]), settings=settings)
+            kw = dict(nv=int(c["nv"]), lattice=bool(c["lattice"]), interpolator=c["interp"], order=int(c["order"]), settings=settings)
             ds = free_dataset(rng, extra_shear=int(rng.integers(2, 10)), **kw) if c["system"] == "none" else system_dataset(rng, exports, c["system"], **kw)
             d = wd.sub(f"c{n}")
-            case = {k: c[k] for k in ("interp", "order", "system", "tmin", "dt", "lattice")}
+            case = {k: c[k] for k in ("interp", "order", "nv", "system", "tmin", "dt", "lattice")}
             ctx.count(case)
             sig = {"interp": c["interp"]}
             try:
